@@ -12,6 +12,10 @@ namespace vf {
 // harness-set limit on the alternatives one error_recovery call may examine (hook H3): far above anything a bounded search
 // needs on the generated sizes; beyond it the parse ends with YAEP_NO_MEMORY and the case counts as "recovery search explosion"
 static const long REC_LIMIT = 2000000;
+// harness-set limit on the alternative nodes one make_parse may create (hook H5): with all parses requested, rules that pass a
+// translation through create one alternative per derivation (3^n for `A : b A A # 2'); beyond the limit the parse ends with
+// YAEP_NO_MEMORY and the case counts as "translation explosion"
+static const long ALT_LIMIT = 500000;
 
 // ------------------------------------------------------------ library allocator wrappers
 // (the library objects' malloc/calloc/realloc/free are renamed to verif_* by objcopy)
@@ -92,6 +96,9 @@ struct Outcome {
   yaep_verif_info hook;
   yaep_tree_node *rootptr = nullptr; // valid only when the tree was not freed
   int epoch = 0;
+  bool exploded() const { return hook.rec_explosion || hook.alt_explosion; }
+  // label under which a case that hit one of the harness limits is counted as excluded
+  std::string explosionLabel() const { return hook.alt_explosion ? "excluded:KF-all-parses-translation-explosion" : "excluded:F27-recovery-explosion"; }
   std::string str() const;
   // the tuple the properties C09/C14/C16 compare
   std::string tupleStr() const;
